@@ -6,7 +6,8 @@ D=$(realpath "$1"); shift
 cd /repo
 if [ -n "$(git status --porcelain)" ]; then echo "SEED $D: /repo not clean, refusing"; exit 2; fi
 if ! git apply "$D/patch.diff" 2>/dev/null; then echo "SEED $D: patch does not apply"; exit 2; fi
-trap 'git -C /repo checkout -- . ; git -C /repo clean -fdq' EXIT
+EVBAK=$(mktemp -d /tmp/evbak.XXXXXX); cp -a /verif/evidence/. "$EVBAK"/ 2>/dev/null
+trap 'git -C /repo checkout -- . ; git -C /repo clean -fdq; rm -rf /verif/evidence; mkdir -p /verif/evidence; cp -a "$EVBAK"/. /verif/evidence/; rm -rf "$EVBAK"' EXIT
 RES=""
 for P in "$@"; do
   /verif/check "$P" --tier "${TIER:-quick}" > "/tmp/seedrun.$(basename $(dirname $D)).$(basename $D).$P.log" 2>&1; RC=$?
